@@ -319,10 +319,18 @@ func RunProfile(behs [][]Step, tr *Trace, env Env, sum *Summary) {
 	dir, err := os.MkdirTemp(env.Scratch, "prof")
 	must(err)
 	defer os.RemoveAll(dir)
-	for bi, beh := range behs {
+	for bj := 0; bj < len(behs)*5/4+1; bj++ {
+		// every fourth document is loaded twice in a row (the second load is judged like the first)
+		bi := bj - (bj+1)/5
+		if bi >= len(behs) {
+			break
+		}
+		beh := behs[bi]
 		tr.Emit(map[string]any{"ev": "Reset"})
 		src := renderProfile(beh, func(o map[string]any) { tr.Emit(map[string]any{"ev": "Item", "o": o}) })
-		path := filepath.Join(dir, fmt.Sprintf("p%d.yaotl", bi))
+		// the loader has no memory: every document of this process is loaded from the same path (as an operator who edits
+		// a profile and loads it again), a faulty one now and then twice in a row
+		path := filepath.Join(dir, "havoc.yaotl")
 		must(os.WriteFile(path, []byte(src), 0o644))
 		p := profile.NewProfile()
 		var lerr error
